@@ -976,3 +976,8 @@ mutant("c16-literal-eq-folded-by-derived-partialeq",
        [(A, "#[derive(Clone, Debug)]\npub enum BinaryOp {",
             "#[derive(PartialEq)]\nenum Lit {\n    Null,\n    Bool(bool),\n    Int(i64),\n}\n\nfn lit_of(e: &RawExpr) -> Option<Lit> {\n    match e {\n        RawExpr::Null => Some(Lit::Null),\n        RawExpr::Bool{b} => Some(Lit::Bool(*b)),\n        RawExpr::Int{n} => Some(Lit::Int(*n)),\n        _ => None,\n    }\n}\n\npub fn fold_eq(lhs: &RawExpr, rhs: &RawExpr) -> Option<RawExpr> {\n    let (l, r) = (lit_of(lhs)?, lit_of(rhs)?);\n\n    Some(RawExpr::Bool{b: l == r})\n}\n\n#[derive(Clone, Debug)]\npub enum BinaryOp {")],
        [("C16", "R16.9")], note="a literal `==` folder through derived PartialEq (the C16 part of seeded C16-f; not wired into the grammar)")
+
+mutant("c15-nested-literal-lookback-escape",
+       [(L, "                    if c == '{' {\n                        interpolation_brace_count += 1;\n                    } else if c == '}' {\n                        interpolation_brace_count -= 1;",
+            "                    if c == '\"' && !chars.ends_with('\\\\') {\n                        interpolation_brace_count += 0;\n                    } else if c == '{' {\n                        interpolation_brace_count += 1;\n                    } else if c == '}' {\n                        interpolation_brace_count -= 1;")],
+       [("C15", "R15.6")], note="escapedness of a quote decided by `ends_with('\\\\')` (the look-back of seeded C15-a / C15-f; positive example for a rule whose expected count is zero)")
